@@ -1692,6 +1692,15 @@ NCvario(NC *handle, int varid, const long *start, const long *edges, void *value
         return NCsimplerecio(handle, vp, start, edges, values);
     }
 
+    /* an empty request (some edge is zero) selects no cell: a run of zero elements */
+    /* would be taken for "the rest of the element" further down */
+    {
+        unsigned ii;
+
+        for (ii = 0; ii < vp->assoc->count; ii++)
+            if (edges[ii] == 0)
+                return 0;
+    }
 
     /* now accumulate max count for a single io operation */
     edp     = edges + vp->assoc->count - 1; /* count is > 0 at this point */
